@@ -58,6 +58,7 @@ type job struct {
 	maxCuts int
 	seed    int64
 	cuts    []int // opaque ASCII files: header bytes and token boundaries (nil: derive from the cells)
+	only    int   // >= 0: execute just this cut (replay)
 }
 
 // CutPoints: every byte offset 0..len-1 for binary and framed files; for
@@ -140,7 +141,10 @@ func runJob(j job) ([]interface{}, error) {
 	} else {
 		l.Sampled = true // the specification cannot re-derive the token boundaries of a file without cell table
 	}
-	if j.maxCuts > 0 && len(cuts) > j.maxCuts {
+	if j.only >= 0 {
+		l.Sampled = true
+		cuts = []int{j.only}
+	} else if j.maxCuts > 0 && len(cuts) > j.maxCuts {
 		l.Sampled = true
 		rng := rand.New(rand.NewSource(j.seed))
 		pick := map[int]bool{}
@@ -256,7 +260,7 @@ func normalise(f *refenc.File) {
 
 // RunCases encodes abstract files (ndjson) with the reference encoders and
 // decodes every cut point on the real readers.
-func RunCases(in, out string, par, maxCuts int, seed int64) error {
+func RunCases(in, out string, par, maxCuts int, seed int64, only int) error {
 	fi, err := os.Open(in)
 	if err != nil {
 		return err
@@ -278,7 +282,7 @@ func RunCases(in, out string, par, maxCuts int, seed int64) error {
 		if err != nil {
 			return fmt.Errorf("case %d: %w", len(jobs), err)
 		}
-		jobs = append(jobs, job{data: e.Bytes, maxCuts: maxCuts, seed: seed + int64(len(jobs)),
+		jobs = append(jobs, job{data: e.Bytes, maxCuts: maxCuts, seed: seed + int64(len(jobs)), only: only,
 			line: fileLine{K: "file", F: f, Name: fmt.Sprintf("case%d", f.Id), Len: len(e.Bytes), SLen: e.SLen,
 				Cells: e.Cells, Blocks: e.Blocks, Ascii: e.Ascii}})
 	}
@@ -335,7 +339,7 @@ func opaqueAsciiCuts(data []byte, bodyStart int) []int {
 
 // RunFiles cuts real files (repository test models, output of polyform's own
 // writers). The format is taken from the extension.
-func RunFiles(paths []string, out string, par, maxCuts int, seed int64) error {
+func RunFiles(paths []string, out string, par, maxCuts int, seed int64, only int) error {
 	jobs := []job{}
 	for i, p := range paths {
 		data, err := os.ReadFile(p)
@@ -379,7 +383,7 @@ func RunFiles(paths []string, out string, par, maxCuts int, seed int64) error {
 				cells = append(cells, refenc.Cell{K: "H", O: 0, S: slen, G: "hdr"})
 			}
 		}
-		jb := job{data: data, maxCuts: maxCuts, seed: seed + int64(i),
+		jb := job{data: data, maxCuts: maxCuts, seed: seed + int64(i), only: only,
 			line: fileLine{K: "file", F: f, Name: filepath.Base(p), Len: len(data), SLen: slen, Cells: cells,
 				Blocks: [][]int{}, Ascii: ascii, Opaque: true}}
 		if ascii {
